@@ -273,11 +273,12 @@ def run_sym(eng, ob, fn_item, subst_vals=None):
     holder_uid = next(eng.uid)
     eng.static_vals[holder_uid] = {i: v for i, v in enumerate(ref_slots)}
     real_args = [Ref(holder_uid, a[1]) if isinstance(a, tuple) else a for a in args]
+    eng.loop_bound = ob.loop_bound
+    eng.use_uf_mul = ob.uf_mul and subst_vals is None
+    env["__mul"] = (lambda a, b: eng.mul(Z(a), Z(b))) if eng.use_uf_mul else (lambda a, b: Z(a) * Z(b))
     pre = list(cons)
     if ob.pre is not None and subst_vals is None:
         pre.append(ob.pre(env))
-    eng.loop_bound = ob.loop_bound
-    eng.use_uf_mul = ob.uf_mul
     # static_vals are shared by forks (callee writes through &mut would alias) -> give each run a private holder
     # by snapshotting: the engine clones frames, not static_vals, so model the holder as a real frame instead.
     ends = eng_run_with_holder(eng, fn_item, real_args, pre, holder_uid, ref_slots)
@@ -421,11 +422,21 @@ def end_tokens(ob, end, holder_uid):
 def validate_translation(eng, ob, fn_item, nat, seed, n):
     """differential execution: interpreter (concrete) vs native function. -> (n_checked, mismatches)"""
     bad, cnt = [], 0
+    saved_excl, eng.exclusions = eng.exclusions, []   # validation runs the real (possibly defective) code on every input
+    try:
+        return _validate_translation(eng, ob, fn_item, nat, seed, n)
+    finally:
+        eng.exclusions = saved_excl
+
+
+def _validate_translation(eng, ob, fn_item, nat, seed, n):
+    bad, cnt = [], 0
     _, allvars, _, _, _ = build_args(ob)
     for vals in probes_for(ob, seed, n):
         if ob.pre is not None:
             # respect the obligation's precondition where it is decidable concretely
             args, vs, cons, _, env = build_args(ob)
+            env["__mul"] = lambda a, b: Z(a) * Z(b)
             sub = [(v, z3.IntVal(vals[str(v)])) for v in vs]
             if zsimp(z3.substitute(Z(ob.pre(env)), *sub)) is False:
                 continue
@@ -445,6 +456,35 @@ def validate_translation(eng, ob, fn_item, nat, seed, n):
         if mine != theirs:
             bad.append({"inputs": vals, "mirsym": mine, "native": theirs})
     return cnt, bad
+
+
+def refine_uf_model(eng, pc, goal, m, allvars, ob):
+    X, Y = z3.Var(0, z3.IntSort()), z3.Var(1, z3.IntSort())
+    real = [z3.substitute_funs(Z(p), (eng.mulf, X * Y)) for p in pc] + [z3.substitute_funs(Z(goal), (eng.mulf, X * Y))]
+    pins = getattr(ob, "pin_vars", None) or [str(v) for v in allvars if str(v) in ("q", "s_c")]
+    cands = {}
+    for v in allvars:
+        if str(v) in pins:
+            mv = m.eval(v, model_completion=True).as_long()
+            cands[v] = [mv, 1, -1, 2, -2, 3, -3, 7, -7, 10, 1000, -1000, (1 << 63) - 1, -(1 << 63), -(1 << 63) + 1, (1 << 62), -(1 << 62), 0]
+    if not cands:
+        return None
+    import itertools as it
+    keys = list(cands)
+    tried = 0
+    for combo in it.islice(it.product(*[cands[k] for k in keys]), 60):
+        s = z3.Solver()
+        s.set("timeout", 15000)
+        sub = [(k, z3.IntVal(c)) for k, c in zip(keys, combo)]
+        for f in real:
+            s.add(z3.simplify(z3.substitute(f, *sub)))
+        for k, c in zip(keys, combo):
+            s.add(k == c)
+        eng.queries += 1
+        tried += 1
+        if s.check() == z3.sat:
+            return s.model()
+    return None
 
 
 def model_vals(model, allvars):
@@ -522,8 +562,12 @@ def run_obligations(obs, tier, seed, need_replay, build_info):
                         nret += 1
                         judged = e.value
                         refs = holder_vals(e, huid)
+                        eng.pending_lemmas = []
                         postc = ob.post(env, judged, refs)
                         goal = z3.Not(Z(postc))
+                        if eng.pending_lemmas:
+                            e.state.pc = list(e.state.pc) + eng.pending_lemmas
+                            eng.pending_lemmas = []
                         what = "post-condition violated"
                     s = eng.solver
                     s.push()
@@ -550,6 +594,17 @@ def run_obligations(obs, tier, seed, need_replay, build_info):
                             rec["verdict"] = "solver_disagreement"
                         else:
                             rec["cross_check"]["cvc5_timeout"] += 1
+                    if r == z3.sat and eng.use_uf_mul:
+                        # the model may interpret `mulf` unlike real multiplication: refine by pinning
+                        # one factor variable to candidate constants, which makes the real formula linear
+                        m2 = refine_uf_model(eng, e.state.pc, goal, m, allvars, ob)
+                        if m2 is None:
+                            rec.setdefault("unreproduced", []).append({"check": what, "note": "sat only under uninterpreted multiplication; no real-arithmetic model found by refinement"})
+                            if rec["verdict"] == "holds":
+                                rec["verdict"] = "unknown"
+                                rec["detail"] = f"{what}: satisfiable with multiplication uninterpreted, refinement with real multiplication found no model (inconclusive)"
+                            continue
+                        m = m2
                     if r == z3.sat:
                         vals = model_vals(m, allvars)
                         nargs = native_args(ob, allvars, vals)
@@ -581,6 +636,10 @@ def run_obligations(obs, tier, seed, need_replay, build_info):
         except z3.Z3Exception as e:
             rec["verdict"] = "error"
             rec["detail"] = "z3: " + str(e)[:500]
+        except Exception as e:
+            import traceback
+            rec["verdict"] = "error"
+            rec["detail"] = "internal: " + traceback.format_exc()[-900:]
         rec["solver_s"] = round(rec["solver_s"], 3)
         rec["wall_s"] = round(time.time() - t1, 2)
         rec["counterexamples"] = rec["counterexamples"][:4]
@@ -596,11 +655,13 @@ def judge_native(ob, allvars, vals, out_line):
         if ob.panic_ok is None:
             return True
         _, vs, _, _, env = build_args(ob)
+        env["__mul"] = lambda a, b: Z(a) * Z(b)
         sub = [(v, z3.IntVal(vals[str(v)])) for v in vs]
         return zsimp(z3.substitute(Z(ob.panic_ok(env)), *sub)) is not True
     toks = out_line.split()
     val, refs = ob_parse_native(ob, toks)
     _, vs, _, _, env = build_args(ob)
+    env["__mul"] = lambda a, b: Z(a) * Z(b)
     sub = [(v, z3.IntVal(vals[str(v)])) for v in vs]
     post = ob.post(env, val, refs)
     r = zsimp(z3.substitute(Z(post), *sub))
@@ -610,6 +671,8 @@ def judge_native(ob, allvars, vals, out_line):
 def ob_parse_native(ob, toks):
     """parse native eval output back into a value tree according to ob.ret_shape"""
     shape = getattr(ob, "ret_shape", None) or "Duration"
+    if shape == "unit:&Duration":
+        return UNIT, [dur_val(int(toks[0]), int(toks[1]))]
     return parse_shape(shape, toks), getattr(ob, "native_refs", lambda toks: [])(toks)
 
 
